@@ -40,6 +40,8 @@ UPSTREAM = {
     "wrap": lambda t: etl.wrap(t),
     # data rows that are petl Record objects (what records() hands out), also made with a `missing` of their own: a short
     # Record answers an absent field with THAT value wherever the row object itself is asked
+    # one table whose data rows alternate between lists and tuples (equal rows of different container type)
+    "mixed_rows": lambda t: [t[0]] + [tuple(r) if i % 2 else list(r) for i, r in enumerate(t[1:])],
     "records": lambda t: [t[0]] + list(etl.records(t)),
     "records_missing": lambda t: [t[0]] + list(etl.records(t, missing="zzz")),
 }
@@ -63,12 +65,17 @@ def _variant_case(draw, tier, names):
     keys_in_front = e.presort is not None and set([e.presort] if isinstance(e.presort, str) else e.presort) <= {"k", "j"}
     c = draw(catgen.cat_case([name], max_rows=6 if tier == "quick" else 12, allow_ragged=variant != "presorted" or keys_in_front,
                              ragged_min=2 if variant == "presorted" else 0))
+    if draw(st.integers(0, 2)) == 0:
+        # whole rows repeated within a table (dedup / set operations / grouping have work to do then)
+        for t in c["sources"]:
+            for _ in range(draw(st.integers(1, 2)) if len(t) > 1 else 0):
+                t.insert(draw(st.integers(1, len(t))), list(t[draw(st.integers(1, len(t) - 1))]))
     n = max(len(t) - 1 for t in c["sources"])
     c["variant"] = variant
     c["buffersize"] = draw(st.sampled_from(sorted({1, 2, max(1, n - 1), max(1, n), n + 1, 2 * n + 1})))
     c["cache"] = draw(st.booleans())
     upstream_ok = not e.cells  # direct-cell entries need their own cell kinds
-    c["upstream"] = draw(st.sampled_from(sorted(UPSTREAM) + ["records_missing"] * 2)) if upstream_ok and draw(st.booleans()) else "list"
+    c["upstream"] = draw(st.sampled_from(sorted(UPSTREAM) + ["records_missing"] * 2 + ["mixed_rows"] * 2)) if upstream_ok and draw(st.booleans()) else "list"
     if c["upstream"].startswith("records") and variant != "presorted":
         # Record rows too short to hold the key fields (the row object answers for the absent cell)
         for t in c["sources"]:
